@@ -23,6 +23,8 @@ PROFILES_QUICK = [
     {"block_size": 1 << 20, "sector": 512, "k": 1, "full": False, "sel": 3, "leave_alloc": True},   # "fixed" flag set, blocks in any order
     {"block_size": 32 << 20, "sector": 4096, "k": 512, "full": False, "max_len": 2 << 20, "sel": 5},  # 4K sectors, ratio 1024, > 1500 BAT entries
     {"block_size": 32 << 20, "sector": 512, "k": 64, "full": False, "max_len": 2 << 20, "sel": 4, "base_mb": 5 << 20},  # ratio 128, data beyond 2^42 bytes
+    {"block_size": 1 << 20, "sector": 512, "k": 1, "full": True, "cap": 40, "sel": 3, "layout": "regions-last"},   # BAT / metadata behind the payload
+    {"block_size": 2 << 20, "sector": 512, "k": 1, "full": False, "sel": 4, "layout": "bat-last", "stale": True},
 ]
 PROFILES_THOROUGH = PROFILES_QUICK + [
     {"block_size": 1 << 20, "sector": 4096, "k": 4096, "full": False, "max_len": 2 << 20, "sel": 8},  # 4K sectors, > 12000 BAT entries
@@ -56,7 +58,8 @@ def build(img, prof, size_bytes=None):
     blocks = blocks[:npb]
     vf, info = enc_vhdx.build(blocks, block_size=bs, sector_size=prof["sector"], disk_size=size_b,
                               data_base_mb=prof.get("base_mb"), seqs=prof.get("seqs", (5, 6)),
-                              reserved_bits=prof.get("reserved_bits", 0), leave_alloc=prof.get("leave_alloc", False))
+                              reserved_bits=prof.get("reserved_bits", 0), leave_alloc=prof.get("leave_alloc", False),
+                              layout=prof.get("layout", "std"))
     return disk.Built(open=lambda: _open(vf), cell=cell, size=size_b, bases={0: info["data_base"]}, files=[vf],
                       note={k_: v for k_, v in prof.items() if k_ != "when"}, cb=cb, stride=ab, sector=prof["sector"])
 
@@ -84,7 +87,8 @@ def make_trace(tid, rng, nops=25, **opt):
     stale = rng.random() < 0.5
     blocks = [(st[i], pp[i] if st[i] == 6 else (rng.randrange(0, npos) if (stale and st[i] in (1, 2, 3)) else None)) for i in range(n)]
     vf, info = enc_vhdx.build(blocks, block_size=bs, sector_size=sector, disk_size=size_b, seqs=rng.choice([(5, 6), (6, 5), (0, 1), (7, 7)]),
-                              reserved_bits=rng.choice([0, 0, 0x1FFFF]), leave_alloc=rng.random() < 0.3)
+                              reserved_bits=rng.choice([0, 0, 0x1FFFF]), leave_alloc=rng.random() < 0.3,
+                              layout=rng.choice(["std", "std", "regions-last", "bat-last"]))
     b = disk.Built(open=lambda: _open(vf), cell=bs, size=size_b, bases={0: info["data_base"]}, sector=sector)
     s = b.open()
     fresh = b.open()
@@ -92,6 +96,35 @@ def make_trace(tid, rng, nops=25, **opt):
     record.random_ops(rec, rng, size_b, nops, unit=bs, big=min(3 * bs + 4096, 6 << 20), sectors_fn=s.read_sectors, ssize=sector)
     return {"tid": tid, "fmt": "vhdx", "img": {"n": n, "cb": 1, "st": st, "p": pp, "bm": [[] for _ in range(n)], "size": n, "parent": False},
             "sizeB": size_b, "sector": sector, "geo": b.geo(), "events": rec.events}
+
+
+def large_blocks(ctx, rng, thorough):
+    """Block sizes of 64-256 MiB with single requests that cover more than 32 MiB of one block (sparse and present)."""
+    from harness import patterns
+    for bs in ([64 << 20] if not thorough else [64 << 20, 128 << 20, 256 << 20]):
+        for states in ([0, 2, 6, 3, 6], [6, 0, 0, 6, 1]):
+            pos = iter(rng.sample(range(4), 4))
+            blocks = [(st, next(pos) if st == 6 else None) for st in states]
+            size_b = len(states) * bs - rng.choice([0, 512, bs // 2])
+            vf, info = enc_vhdx.build(blocks, block_size=bs, sector_size=rng.choice([512, 4096]), disk_size=size_b)
+            b = disk.Built(open=lambda vf=vf: _open(vf), cell=bs, size=size_b, bases={0: info["data_base"]})
+            view = [{"k": "D", "f": 0, "c": p} if st == 6 else {"k": "Z", "f": 0, "c": 0} for st, p in blocks]
+            s = b.open()
+            for o, n in ((0, 2 * bs + 4096), (bs - 4096, bs + 8192), (4096, 40 << 20), (bs + 512 * 8, 33 << 20), (3 * bs - (34 << 20), 70 << 20), (size_b - (33 << 20), 64 << 20)):
+                ctx.case(key=("large-blocks", bs, tuple(states), o, n), nontrivial=True)
+                try:
+                    s.seek(o)
+                    got = s.read(n)
+                except Exception as e:  # noqa: BLE001
+                    ctx.violation({"format": "vhdx", "fail": "read-raised", "sub": "large-blocks", "block_size": bs, "exc": type(e).__name__},
+                                  {"block_size": bs, "states": states, "read": [o, n], "error": repr(e)[:300]})
+                    break
+                exp = disk.expected(view, o, n, b)
+                if got != exp:
+                    ctx.violation({"format": "vhdx", "fail": "read-mismatch", "sub": "large-blocks", "block_size": bs},
+                                  {"block_size": bs, "states": states, "read": [o, n], "diff": disk.first_diff(exp, got)})
+                    break
+                del got, exp
 
 
 def _attrs(img, prof):
@@ -111,6 +144,7 @@ def run(ctx):
     sts = diskprop.dump_states(ctx, "Vhdx", "Vhdx_img4.cfg" if thorough else "Vhdx_img.cfg")
     diskprop.replay_states(ctx, "vhdx", sts, PROFILES_THOROUGH if thorough else PROFILES_QUICK, build,
                            attrs_of=_attrs, cap=64 if thorough else 36, sectors_api=_sectors)
+    large_blocks(ctx, random.Random(ctx.seed + 303), thorough)
     diskprop.traces(ctx, "vhdx", lambda tid, r: make_trace(tid, r, 40 if thorough else 25, many=("mid" if tid % 8 == 0 else None)), 320 if thorough else 48,
                     "TraceDisk", "TraceDisk.cfg", lambda t: {"format": "vhdx", "block_size": t["geo"]["cellB"], "sector": t["sector"]})
 
